@@ -1,12 +1,47 @@
 /-
 Property C09 — inspections are executed and their rules checked against the real directory.
 Model: InToto/Model/Verify.lean (`runInspections`, `record`, inspection stage of `verifyAux`).
-(Interim: the unbounded theorems are being proved, see /verif/wip/PipeInspect.lean.)
+Helper lemmas: InToto/Proofs/PipeInspect.lean.
 -/
 import InToto.Model.Verify
+import InToto.Proofs.PipeInspect
 
 namespace InToto.C09
-open InToto InToto.Verify
+open InToto InToto.Verify InToto.PipeProofs
+
+/-- C09 (layout order): whatever happens, the commands that were run are a PREFIX of the layout's
+    inspection list, appended to what was run before (sublayouts) — never out of order, none skipped. -/
+theorem executed_in_layout_order (W : World) (rd : Str) (insps : List Inspection) (st : InspState) :
+    ∃ k, (runInspections W rd insps st).2.ran = st.ran ++ (insps.take k).map cmdOf :=
+  runInspections_prefix W rd insps st
+
+/-- C09: success means EVERY inspection command was executed, each could be started and exited 0. -/
+theorem success_means_all_ran_with_exit_zero (W : World) (rd : Str) (insps : List Inspection) (st : InspState)
+    (h : (runInspections W rd insps st).1 = .ok ()) :
+    (runInspections W rd insps st).2.ran = st.ran ++ insps.map cmdOf ∧
+    ∀ i ∈ insps, i.run ≠ [] ∧ (W.exec i.run).started = true ∧ (W.exec i.run).exit = 0 :=
+  runInspections_ok W rd insps st h
+
+/-- C09: a command that cannot be started, an empty command or a non-zero exit status of ANY
+    inspection fails verification. -/
+theorem bad_command_fails (W : World) (rd : Str) (insps : List Inspection) (st : InspState) (i : Inspection)
+    (hi : i ∈ insps) (hbad : i.run = [] ∨ (W.exec i.run).started = false ∨ (W.exec i.run).exit ≠ 0) :
+    (runInspections W rd insps st).1.isOk = false :=
+  runInspections_fail W rd insps st i hi hbad
+
+/-- C09: rules are checked against the REAL directory: the first inspection's link holds the
+    directory as recorded before its command as materials and as recorded after it as products. -/
+theorem first_inspection_snapshots (W : World) (rd : Str) (i : Inspection) (rest : List Inspection) (st : InspState)
+    (h : (runInspections W rd (i :: rest) st).1 = .ok ()) (hn : ∀ j ∈ rest, j.name ≠ i.name) :
+    ∃ lv, lookup i.name (runInspections W rd (i :: rest) st).2.links = some lv ∧
+      lv.materials = record rd st.fs ∧
+      lv.products = record rd ((W.exec i.run).dels.foldl fsDel ((W.exec i.run).sets.foldl (fun f e => fsSet f e.1 e.2) st.fs)) :=
+  runInspections_first_link W rd i rest st h hn
+
+/-- the inspection stage cannot crash -/
+theorem inspections_never_panic (W : World) (rd : Str) (insps : List Inspection) (st : InspState) :
+    (runInspections W rd insps st).1.isPanic = false :=
+  runInspections_no_panic W rd insps st
 
 /-- no inspections: nothing runs, nothing changes -/
 theorem no_inspections (W : World) (rd : Str) (st : InspState) :
